@@ -806,6 +806,7 @@ func (g *G) switchStmt(depth int) ast.Statement {
 	g.t("{", "SwitchStatement#4", true)
 	g.eol()
 	n := 1 + r.Intn(4)
+	used := map[string]bool{}
 	defAt := -1
 	if r.Intn(2) == 0 {
 		defAt = r.Intn(n)
@@ -819,10 +820,21 @@ func (g *G) switchStmt(depth int) ast.Statement {
 			g.t(":", "CaseStatement#dcolon", true)
 		} else {
 			g.t("case", "CaseStatement#0", true)
-			val := fmt.Sprintf("c%d", i)
+			// the same literal may appear under the other operator (`case "x":` and `case ~ "x":`),
+			// never twice under one operator (the parser rejects duplicate labels)
 			op := "=="
 			if r.Intn(3) == 0 {
 				op = "~"
+			}
+			val := fmt.Sprintf("c%d", r.Intn(i+1))
+			for used[op+val] {
+				val = fmt.Sprintf("c%d", i)
+				if used[op+val] {
+					val += "x"
+				}
+			}
+			used[op+val] = true
+			if op == "~" {
 				g.f("case-regex")
 				g.t("~", "CaseStatement#1", true)
 				g.t("\""+val+"\"", "CaseStatement#re", false)
